@@ -188,7 +188,7 @@ fn c13(tc: &Toolchain, tier: &str, tag: &str, seed: u64, thorough: bool, root: &
     }
     let n_generated = progs.len();
     for (name, p) in crate::c13::fixed_programs() {
-        let must = name.starts_with("sanctioned") || name.starts_with("Lock::take");
+        let must = name.starts_with("sanctioned") || name.starts_with("Lock::take") || name.ends_with("(control)");
         progs.push((format!("fixed|{name}"), p, must));
     }
     // 1. type-check everything
@@ -241,6 +241,8 @@ fn c13(tc: &Toolchain, tier: &str, tag: &str, seed: u64, thorough: bool, root: &
             }
         }
     }
+    let known13 = known_signatures(root, "C13");
+    let mut known_hits13: Vec<String> = Vec::new();
     for (k, i) in accepted.iter().enumerate() {
         let (class, prog, _) = &progs[*i];
         let start = class.split('|').next().unwrap().to_string();
@@ -262,6 +264,10 @@ fn c13(tc: &Toolchain, tier: &str, tag: &str, seed: u64, thorough: bool, root: &
                 } else if *rc == Some(124) {
                     eprintln!("gcverif: probe timed out (cannot decide): {class}");
                     code = code.max(2);
+                } else if known13.iter().any(|k| class.contains(k.as_str())) {
+                    // listed as `known:` in KNOWN_FINDINGS.txt: reported by ./check as a KNOWN-FINDING line
+                    decided += 1;
+                    known_hits13.push(class.clone());
                 } else {
                     violations += 1;
                     if violations == 1 {
@@ -290,6 +296,7 @@ fn c13(tc: &Toolchain, tier: &str, tag: &str, seed: u64, thorough: bool, root: &
         "accepted_by_rustc_and_run": accepted.len(),
         "by_start": starts_json,
         "diagnostic_families": fams,
+        "known_findings_reproduced": known_hits13,
         "build": tag,
     });
     let assumptions = ["rustc is the accept/reject oracle; a compiled probe contains no unsafe, so a destructed-while-stored child is a violation by the statement's own 'equivalently' clause", "grammar-bounded sample of program space (at most 5 wrappers)"];
